@@ -1,5 +1,5 @@
 Require Extraction.
 Require Import ExtrOcamlBasic.
 From QV Require Import Core.Bits Core.Pauli Core.Symp Core.Span Decoders.Naive Decoders.Checker Decoders.TParity.
-Extraction "dec.ml" recovery_ok recovery_ok_ftp in_span in_span_with basis_of rank naive_decode naive_blocks tparity_decide tparity
+Extraction "dec.ml" recovery_ok recovery_ok_ftp in_span in_span_with not_in_span_cert basis_of rank naive_decode naive_blocks tparity_decide tparity
   syndrome_of bsf_wt xsum five_stabs steane_stabs.
